@@ -41,6 +41,20 @@ CHECKS = {
         design_ref="3/C11",
         note="Trusts TLC and operation-granularity interleaving (races inside one Env call are not modelled). Four genuine defects are recorded as known findings (named Dev_* actions).",
     ),
+    "C10": dict(
+        category="model_checking",
+        technique="TLA+ spec EnvDetype checked by TLC; transition tours over its state graph replayed on the real session environment with a real `env -0` child per launch (and the child's mapping fed to a fresh Env); recorded histories validated against EnvDetypeTrace by TLC; convert(detype(v)) sweep over all registered variables",
+        text="TLC checks that every launch hands the child the values at launch time for all set/del/in-place-mutation (through the env and through a retained reference)/prefix/mask histories of the model; every edge of the state graph (thorough) is executed with real child processes, and the round-trip clause is enumerated for every registered variable and pool value.",
+        design_ref="3/C10",
+        note="Trusts TLC and the version encoding of values (three variables of str/bool/path-list type); round trip equality is typed equality of convert(detype(v)).",
+    ),
+    "C19": dict(
+        category="model_checking",
+        technique="TLA+ spec CodeCache checked by TLC; simulated edit/touch/run/damage/switch histories replayed on run_script_with_cache/run_code_with_cache with explicit mtimes and validated against CodeCacheTrace by TLC; every truncation length of a real cache file replayed",
+        text="TLC checks Fresh, Robust, SameAsUncached (within the statement's invalidation contract), CodeSameAsUncached and OffMeansOff over all histories of the model (script store and code store, both modes, both binding contexts, all switch combinations); thousands of simulated histories run on the real cache with controlled mtimes must be behaviours of the spec, and each byte-length truncation of a real entry must be ignored and rebuilt.",
+        design_ref="3/C19",
+        note="Trusts TLC and os.utime-controlled logical time; same-tick / older-mtime edits are outside the contract (stale run allowed). Three code-store defects are known findings.",
+    ),
 }
 
 ALL = [f"C{i:02d}" for i in range(1, 21)]
